@@ -258,7 +258,7 @@ def report(ctx, tu, prefix_filter, unit=None):
     # the automaton reads the protocol off calls of these functions; when one of them no longer exists under its
     # name (renamed / merged away) nothing can be concluded from its absence on a path
     need = [A["is_forbidden"], A["can_be_called"], A["is_saturated"], A["increment_call"], A["retire_predecessors"],
-            A["retire"], A["validate"]]
+            A["retire"], A["validate"], A["side_effect_action"], A["send_ok_report"], A["unlink"]]
     missing = [n for n in need if not tu.find(n, body=False)]
     if missing and tu.find(A["run_actions"]):
         for rid in ALL_RULES:
